@@ -181,6 +181,14 @@ func (f *frame) doCall(c *ssa.CallCommon, pos token.Pos, site ssa.Instruction) [
 		}
 		fv := f.val(c.Value)
 		f.oblige("nil", pos, mkNot(mkEq(fv, i64(0))))
+		if isHashCtor(c.Value.Type()) {
+			vc.trust("values of type func() hash.Hash are pure constructors returning a fresh, non-nil hash")
+			a := f.alloc(i64(1))
+			vc.assume(ule(i64(4096), a))
+			rs := []Term{mkIface(i64(int64(f.tt().typeIDName("*hash.digest"))), a)}
+			f.noteEvent("call", c.Value, args, rs)
+			return rs
+		}
 		if ok := isAssumedPure(valueName(c.Value)); ok {
 			vc.trust("callback assumed pure: " + valueName(c.Value))
 			if ws := assumedWritesOf(valueName(c.Value)); len(ws) > 0 {
@@ -258,6 +266,16 @@ func inlineLib(fn *ssa.Function) bool {
 		return true
 	case "encoding/binary":
 		return strings.HasPrefix(fn.Name(), "AppendUint")
+	case "sync/atomic":
+		// typed atomics are thin wrappers around the function forms (modelled sequentially)
+		if recv := fn.Signature.Recv(); recv != nil {
+			rs := recv.Type().String()
+			if strings.Contains(rs, "atomic.Value") || strings.Contains(rs, "atomic.Pointer") {
+				return false
+			}
+			return true
+		}
+		return fn.Name() == "b32"
 	case "slices":
 		return false
 	}
